@@ -136,6 +136,10 @@ def configs(tier):
             out.append(dict(kind='shortcut', users=users, order=order))
     out += [dict(kind='invalid', cls=c) for c in INVALID]
     out += [dict(kind='frozen', path=p) for p in ('explicit', 'implicit', 'explicit+run', 'after-stop')]
+    # '_not_NAME' for names that begin with characters of the prefix itself (n, o, t, 'not_')
+    for name in ('toggle', 'not_a', 'n', 'o', 't', 'not', 'on', 'ton', 'tnot_x', 'no_t', 'x_not_', 'otto', 'a'):
+        for decoys in (False, True):
+            out.append(dict(kind='shortcut-name', name=name, decoys=decoys))
     # references by name created between an explicit finalize() and the start (events and filters
     # are no blocks and no connections; they are resolved when the simulation starts)
     for ref in LATE_REFS:
@@ -1008,8 +1012,61 @@ def run_late_ref(cfg, acc):
     return viol
 
 
+def run_shortcut_name(cfg, acc):
+    viol = []
+    name = cfg['name']
+    label = f"'_not_{name}' ({'with' if cfg['decoys'] else 'without'} blocks named like the tails of {name!r})"
+    for path in ('explicit', 'implicit'):
+        with Sim() as sim:
+            circuit = sim.circuit
+            target = edzed.Input(name, initdef=True)
+            if cfg['decoys']:
+                for i in range(1, len(name)):
+                    if not name[i:].startswith('_'):
+                        edzed.Input(name[i:], initdef=False)
+            user = edzed.Or('user').connect('_not_' + name)
+            res = {}
+            try:
+                if path == 'explicit':
+                    circuit.finalize()
+
+                async def driver():
+                    task = asyncio.create_task(circuit.run_forever())
+                    await circuit.wait_init()
+                    inv = circuit.findblock('_not_' + name)
+                    res['inv_inputs'] = inv.inputs
+                    res['user_inputs'] = user.inputs
+                    res['oconn'] = inv in target.oconnections and user in inv.oconnections
+                    res['out1'] = (inv.output, user.output)
+                    edzed.ExtEvent(target).send(False)
+                    await sim.loop.idle()
+                    res['out2'] = (inv.output, user.output)
+                    res['inv'] = inv
+                    await stop(circuit)
+                    del task
+                sim.run(driver())
+            except Exception as err:    # pylint: disable=broad-except
+                viol.append(('valid-program-rejected', f"{label}, {path} finalisation: {err!r}"))
+                continue
+        acc.outcome(('shortcut-name', name, cfg['decoys'], path, repr(res.get('out1')), repr(res.get('out2'))))
+        acc.state(('shortcut-name', name, cfg['decoys']))
+        if (res['inv_inputs'] != {'_': (target,)} or res['user_inputs'] != {'_': (res['inv'],)}
+                or not res['oconn'] or res['out1'] != (False, False) or res['out2'] != (True, True)):
+            viol.append(('inverter-of-wrong-block',
+                         f"{label}, {path} finalisation: the inverter's inputs are "
+                         f"{[getattr(b, 'name', b) for b in res['inv_inputs'].get('_', ())]}, the user's "
+                         f"{[getattr(b, 'name', b) for b in res['user_inputs'].get('_', ())]}; outputs (inverter, user) {res['out1']} while {name!r} is True, "
+                         f"{res['out2']} while it is False"))
+    return viol
+
+
 def run_config(cfg):
     acc = Acc()
+    if cfg['kind'] == 'shortcut-name':
+        acc.execs += 2
+        for sig, msg in run_shortcut_name(cfg, acc):
+            acc.violation(f"C15:{sig}:shortcut-name", msg, cfg=cfg)
+        return acc
     if cfg['kind'] == 'late-ref':
         acc.execs += 1
         for sig, msg in run_late_ref(cfg, acc):
